@@ -53,6 +53,11 @@ func vhC12Op(env *vhEnv, op int, who string) (string, error) {
 	case 6: // remove the rule
 		_, err := env.state.Rem(env.ctx, "r")
 		return "", err
+	case 8: // replace rule r by a rule with the same pattern and another action
+		rf := vhRuleFact(map[string]interface{}{"a": "?x"})
+		rf["rule"].(map[string]interface{})["action"] = map[string]interface{}{"code": "2"}
+		_, err := env.state.Add(env.ctx, "r", rf)
+		return "", err
 	case 7: // uncached rule lookup for an event that matches rule r
 		rs, err := env.state.FindRules(env.ctx, Map{"a": "1"})
 		if err != nil {
@@ -142,6 +147,11 @@ func vhC12Final(env *vhEnv) string {
 			out += "rules=E;"
 		} else {
 			out += "rules=" + strconv.Itoa(len(rs)) + ";"
+			// which version of rule r later events will run
+			if r := rs["r"]; r != nil && len(r.Actions) == 1 {
+				c, _ := r.Actions[0].Code.(string)
+				out += "code=" + c + ";"
+			}
 		}
 		srs, err := e.state.Search(e.ctx, Map{"a": "?v"})
 		if err != nil {
@@ -369,6 +379,61 @@ func VH_C12_expiring_lin(kind, opA, opB int) {
 	got := vhC12Res(ra, errA) + "/" + vhC12Res(rb, errB) + "/" + vhC12Final(env)
 	ab := vhC12SeqExp(kind, opA, opB, true)
 	ba := vhC12SeqExp(kind, opA, opB, false)
+	if got != ab && got != ba {
+		println("GOT", got, "AB", ab, "BA", ba)
+	}
+	vassert(got == ab || got == ba, "outcome-explained-by-a-sequential-order")
+	vreach("end")
+}
+
+// ---- cold rule cache -----------------------------------------------------------------
+//
+// As VH_C12_pair / VH_C12_lin, but nobody has asked for rule r yet: the first dispatch
+// parses it and fills the state's rule cache while the other client works on the state.
+
+func vhC12SetupCold(kind int) *vhEnv {
+	env := vhNewEnv(kind)
+	_, err := env.state.Add(env.ctx, "x", Map{"a": "0"})
+	vassume(err == nil)
+	_, err = env.state.Add(env.ctx, "r", vhRuleFact(map[string]interface{}{"a": "?x"}))
+	vassume(err == nil)
+	return env
+}
+
+func vhC12SeqCold(kind, opA, opB int, aFirst bool) string {
+	env := vhC12SetupCold(kind)
+	var ra, rb string
+	var errA, errB error
+	if aFirst {
+		ra, errA = vhC12Op(env, opA, "A")
+		rb, errB = vhC12Op(env, opB, "B")
+	} else {
+		rb, errB = vhC12Op(env, opB, "B")
+		ra, errA = vhC12Op(env, opA, "A")
+	}
+	return vhC12Res(ra, errA) + "/" + vhC12Res(rb, errB) + "/" + vhC12Final(env)
+}
+
+func VH_C12_cold_lin(kind, opA, opB int) {
+	env := vhC12SetupCold(kind)
+	var wg sync.WaitGroup
+	wg.Add(2)
+	ea := &vhEnv{kind: kind, ctx: env.ctx.SubContext(), store: env.store, state: env.state, loc: env.loc, name: env.name}
+	eb := &vhEnv{kind: kind, ctx: env.ctx.SubContext(), store: env.store, state: env.state, loc: env.loc, name: env.name}
+	var ra, rb string
+	var errA, errB error
+	go func() {
+		ra, errA = vhC12Op(ea, opA, "A")
+		wg.Done()
+	}()
+	go func() {
+		rb, errB = vhC12Op(eb, opB, "B")
+		wg.Done()
+	}()
+	wg.Wait()
+	got := vhC12Res(ra, errA) + "/" + vhC12Res(rb, errB) + "/" + vhC12Final(env)
+	ab := vhC12SeqCold(kind, opA, opB, true)
+	ba := vhC12SeqCold(kind, opA, opB, false)
 	if got != ab && got != ba {
 		println("GOT", got, "AB", ab, "BA", ba)
 	}
